@@ -50,7 +50,7 @@ def run_driver(ctx, drv, lines, path, extra=()):
 
 
 def ref_fields(detail):
-    m = re.search(r"\[ref=(\S+) relax=(\S+) window=(\S+)( large)?\]", detail)
+    m = re.search(r"\[ref=(\S+) relax=(\S+) window=([^\s\]]+)", detail)
     return (m.group(1), m.group(2), m.group(3)) if m else ("?", "?", "?")
 
 
@@ -86,6 +86,9 @@ def classify(hist, idx, verdict):
         tags.append("mixed_integer")
     integer_point_exists = klass(ref) in ("unbounded", "optimum") or klass(window) in ("unbounded", "optimum")
     says_unsat = (kind == "solve" and lib == "unfeasible") or (kind == "sat" and lib == "0") or (kind == "fpoint" and lib == "none")
+    m = re.search(r"incremental≠fresh incremental (\S+).* vs fresh (\S+)", verdict)
+    if m and {m.group(1), m.group(2)} == {"unfeasible", "unbounded"}:
+        says_unsat = True      # one of the two objects says unfeasible, the other exhibits a verified feasible point
     solve_before = kind in SOLVE_LIKE or any(o.split(":")[1] in SOLVE_LIKE for o in ops if o.startswith("obs:"))
     site = "%s:%s" % (kind, obligation)
     # solve_mip(): relaxation unbounded, vertex fractional on an integer variable -> both children are
